@@ -429,8 +429,25 @@ impl Prop for Unix {
                 }
             }
         }
+        // history of setter calls: a REJECTED set_timezone call (unknown zone name) after the accepted one changes nothing
+        let mut after_rejected_call = false;
+        if acc.ok() && c.default_tz.is_some() && text.bytes().fold(0u32, |h, b| h.wrapping_mul(31).wrapping_add(b as u32)) % 16 == 0 {
+            let mut calc = crate::common::build_calc(&cfg);
+            let rejected = crate::engine::guarded(|| calc.set_timezone("no such zone".to_string()));
+            w.count_eval(1);
+            match (rejected, crate::common::eval_on(&calc, "en", &text)) {
+                (Ok(Err(_)), Ok(o)) => {
+                    after_rejected_call = true;
+                    if o.slots.len() != out.slots.len() || !o.slots.iter().zip(out.slots.iter()).all(|(x, y)| x.same(y)) {
+                        acc.fail(format!("after a rejected set_timezone(\"no such zone\") the text gives {:?}, before it gave {:?}", o.slots.iter().map(|s| s.brief()).collect::<Vec<_>>(), out.slots.iter().map(|s| s.brief()).collect::<Vec<_>>()));
+                    }
+                }
+                (Ok(Ok(_)), _) => acc.fail("set_timezone(\"no such zone\") was accepted".into()),
+                (Err(p), _) | (_, Err(p)) => acc.fail(format!("panic at {}: {}", p.site, p.message)),
+            }
+        }
         let n = n_for_class.unwrap_or(0);
-        acc.finish(rendered).nt(n.abs() > 86400 && (zone_off != 0 || n < 0 || n >= 1 << 31)).class(kind).class_if(n < 0, "negative-timestamp").class_if(n >= 1 << 31, "timestamp>=2^31").class_if(zone_off != 0, "zone-offset-not-zero").class_if(c.default_tz.is_some(), "default-zone-set")
+        acc.finish(rendered).class_if(after_rejected_call, "also-after-a-rejected-set_timezone-call").nt(n.abs() > 86400 && (zone_off != 0 || n < 0 || n >= 1 << 31)).class(kind).class_if(n < 0, "negative-timestamp").class_if(n >= 1 << 31, "timestamp>=2^31").class_if(zone_off != 0, "zone-offset-not-zero").class_if(c.default_tz.is_some(), "default-zone-set")
     }
 }
 
@@ -503,7 +520,7 @@ pub fn table() -> Vec<Case> {
 
 pub fn run(ctx: &Ctx) {
     crate::calendar::self_test();
-    ctx.rule("timestamps of years 1..9999 (0, +-1, +-86400, 2^31-1, 2^31, 2^32, year ends, negative, random) as 'N [to] date' and 'N [to] Z'; dates in every C09 spelling 'as|to|into|in unix|unixtime|unixtimestamp' (also without connective); times [with zone] as unix; date-times bound to a variable ('x = D at T', 'x = D at H') as unix; inverse forms 'N to date as unix', 'x = N to date; x as unix', 'D as unix to date'; default zone from a pool, explicit zones from the table and GMT forms; date-times whose time carries an explicit zone ('x = D at T Z', x as unix): the instant is that wall clock at that offset on day D (asserted when its UTC clock stays on D) and is the same under every default zone; oracle: independent civil-from-days arithmetic: AST instant = N and zone = default/requested, printed fields = instant shifted by the zone offset, D as unix = 86400*days(D) whatever the configured zone, time as unix = instant of the operand evaluated alone, inverses return N exactly, printed timestamp = every digit of N; non-trivial = |N| > 86400 and (zone offset != 0 or N < 0 or N >= 2^31)");
+    ctx.rule("timestamps of years 1..9999 (0, +-1, +-86400, 2^31-1, 2^31, 2^32, year ends, negative, random) as 'N [to] date' and 'N [to] Z'; dates in every C09 spelling 'as|to|into|in unix|unixtime|unixtimestamp' (also without connective); times [with zone] as unix; date-times bound to a variable ('x = D at T', 'x = D at H') as unix; inverse forms 'N to date as unix', 'x = N to date; x as unix', 'D as unix to date'; default zone from a pool, explicit zones from the table and GMT forms; one case in sixteen with a default zone is repeated on a calculator that saw a REJECTED set_timezone call afterwards (same results); date-times whose time carries an explicit zone ('x = D at T Z', x as unix): the instant is that wall clock at that offset on day D (asserted when its UTC clock stays on D) and is the same under every default zone; oracle: independent civil-from-days arithmetic: AST instant = N and zone = default/requested, printed fields = instant shifted by the zone offset, D as unix = 86400*days(D) whatever the configured zone, time as unix = instant of the operand evaluated alone, inverses return N exactly, printed timestamp = every digit of N; non-trivial = |N| > 86400 and (zone offset != 0 or N < 0 or N >= 2^31)");
     ctx.assume("'in' is not written directly after a number (it would read as the unit inch); N outside years 1..9999 belongs to C01");
     ctx.run_table(&Unix, "boundary-table", table(), true);
     ctx.run_generated(&Unix, ctx.tier.pick(80_000, 800_000), case_strategy);
